@@ -2,6 +2,7 @@ package sim
 
 import (
 	"fmt"
+	"os"
 	"runtime"
 	"sort"
 	"sync"
@@ -270,6 +271,7 @@ func (s *Sched) Yield(point string) {
 //
 //go:norace
 func (s *Sched) BlockUntil(cond func() bool) {
+	first := true
 	for {
 		if s.aborted {
 			return
@@ -290,6 +292,17 @@ func (s *Sched) BlockUntil(cond func() bool) {
 			return
 		}
 		cur.state = tBlocked
+		if first {
+			// The task arrives here from real work (it ran as a runnable task
+			// since its last scheduling point): whatever it did may have made the
+			// other waiters' conditions true, so they all get to poll again
+			// before a deadlock is declared. (Without this a writer that
+			// published what everybody was waiting for and then went to wait
+			// itself was taken for the last link of a deadlock - false alarm of
+			// the scheduler met in the thorough tier, 1 in 200 000 runs.)
+			s.pollFails = 0
+			first = false
+		}
 		s.pollFails++
 		s.unlock()
 		s.dispatch(cur, "block")
@@ -342,6 +355,9 @@ func (s *Sched) Adjacency() map[string]int {
 	}
 	return m
 }
+
+// schedTrace (debugging aid): print every scheduling decision to stderr.
+var schedTrace = os.Getenv("VERIF_SCHED_TRACE") != ""
 
 // dispatch chooses the next task. from is the calling task (nil when it has
 // exited); the caller is parked unless it is chosen again.
@@ -477,6 +493,16 @@ func (s *Sched) dispatch(from *task, point string) {
 			s.park(from)
 		}
 		return
+	}
+	if schedTrace {
+		fn, nn := "-", "-"
+		if from != nil {
+			fn = fmt.Sprintf("%s(%d)", from.name, from.state)
+		}
+		if next != nil {
+			nn = next.name
+		}
+		fmt.Fprintf(os.Stderr, "sched: t=%v %s@%s -> %s\n", s.now, fn, point, nn)
 	}
 	prev := s.cur
 	s.cur = next
